@@ -16,6 +16,7 @@ import (
 	"runtime/debug"
 	"strconv"
 	"strings"
+	"syscall"
 	"time"
 
 	"github.com/nyaruka/gocommon/uuids"
@@ -50,7 +51,15 @@ func deepChild(spec string) {
 	parts := strings.SplitN(spec, ",", 2)
 	depth, _ := strconv.Atoi(parts[1])
 	debug.SetMaxStack(deepStackCeiling)
-	raw := defAssets([]any{defFlow(1, "messaging", []any{defActionNode(101, 0, map[string]any{"type": "send_msg", "text": deepExpression(parts[0], depth)})})})
+	node := defActionNode(101, 0, map[string]any{"type": "send_msg", "text": deepExpression(parts[0], depth)})
+	if strings.HasPrefix(parts[0], "amplify:") {
+		// one evaluation that builds a text of gigabytes: the child caps its own address space, so that it dies (or,
+		// with a bounded evaluator, returns) quickly and cannot hurt the machine
+		lim := uint64(amplifyAddressSpace)
+		syscall.Setrlimit(syscall.RLIMIT_AS, &syscall.Rlimit{Cur: lim, Max: lim})
+		node = amplifyNode(parts[0], parts[1])
+	}
+	raw := defAssetsWith([]any{defFlow(1, "messaging", []any{node})}, map[string]any{"fields": []any{map[string]any{"uuid": uuidOf(kAct, 1099), "key": "x", "name": "X", "type": "text"}}})
 	src, err := static.NewSource(raw)
 	if err != nil {
 		fmt.Println("returned: assets rejected:", err)
@@ -74,6 +83,82 @@ func deepChild(spec string) {
 		return
 	}
 	fmt.Println("returned: session", s.Status())
+}
+
+const amplifyAddressSpace = 3 << 30 // bytes of address space allowed to the child of the amplification probe
+
+// templates of a few dozen characters whose ONE evaluation builds gigabytes (every operand stays within repeat's own cap)
+var amplifyTemplates = map[string]string{
+	"replace":              `@(replace(repeat("a", 100000), "a", repeat("b", 100000)))`,
+	"replace-empty-needle": `@(replace(repeat("a", 100000), "", repeat("b", 100000)))`,
+	"join":                 `@(join(split(repeat("a ", 50000), " "), repeat("b", 100000)))`,
+	"foreach":              `@(count(foreach(split(repeat("a ", 50000), " "), (x) => repeat("b", 100000))))`,
+	"concatenate":          `@(((d) => ` + strings.Repeat("d(", 36) + `"x"` + strings.Repeat(")", 36) + `)((x) => x & x))`,
+}
+
+// the evaluated member the template sits in
+var amplifyMembers = []string{"send_msg.text", "set_run_result.value", "set_contact_field.value", "router.operand", "send_msg.quick_replies", "set_contact_name.name"}
+
+func amplifyNode(kind, member string) map[string]any {
+	t := amplifyTemplates[strings.TrimPrefix(kind, "amplify:")]
+	switch member {
+	case "set_run_result.value":
+		return defActionNode(101, 0, map[string]any{"type": "set_run_result", "name": "r", "value": t})
+	case "set_contact_field.value":
+		return defActionNode(101, 0, map[string]any{"type": "set_contact_field", "field": map[string]any{"key": "x", "name": "X"}, "value": t})
+	case "set_contact_name.name":
+		return defActionNode(101, 0, map[string]any{"type": "set_contact_name", "name": t})
+	case "send_msg.quick_replies":
+		return defActionNode(101, 0, map[string]any{"type": "send_msg", "text": "hi", "quick_replies": []any{t}})
+	case "router.operand":
+		n := defWaitNode(101, 0)
+		rt := n["router"].(map[string]any)
+		delete(rt, "wait")
+		rt["operand"] = t
+		rt["result_name"] = "r"
+		return n
+	}
+	return defActionNode(101, 0, map[string]any{"type": "send_msg", "text": t})
+}
+
+// amplifyProbe: every template in one member (rotating), each in a child process with a capped address space
+func amplifyProbe(prop string, seed uint64, res *hx.Result) {
+	exe, err := os.Executable()
+	if err != nil {
+		return
+	}
+	names := []string{"concatenate", "foreach", "join", "replace", "replace-empty-needle"}
+	for i, name := range names {
+		member := amplifyMembers[(int(seed%uint64(len(amplifyMembers)))+i)%len(amplifyMembers)]
+		ctx, cancel := context.WithTimeout(context.Background(), 90*time.Second)
+		cmd := exec.CommandContext(ctx, exe)
+		cmd.Env = append(os.Environ(), "ENG_DEEP_CHILD=amplify:"+name+","+member)
+		out, err := cmd.CombinedOutput()
+		timedOut := ctx.Err() != nil
+		cancel()
+		res.OracleChecks++
+		res.Dist("amplify:" + name)
+		text := string(out)
+		if err == nil && strings.Contains(text, "returned:") {
+			continue
+		}
+		first := text
+		if len(first) > 300 {
+			first = first[:300]
+		}
+		how := "died"
+		switch {
+		case timedOut:
+			how = "hang"
+		case strings.Contains(text, "out of memory") || strings.Contains(text, "cannot allocate"):
+			how = "out-of-memory"
+		case strings.Contains(text, "stack overflow"):
+			how = "stack-overflow"
+		}
+		res.Fail(fmt.Sprintf("%s:fatal:amplifying-template:%s:%s", prop, name, how),
+			map[string]any{"kind": "amplifying-template", "template": amplifyTemplates[name], "member": member, "address_space_bytes": amplifyAddressSpace},
+			fmt.Sprintf("NewSession on a flow whose %s is %s did not return: the child process (address space capped at 3 GiB) ended with %v: %s", member, amplifyTemplates[name], err, strings.ReplaceAll(first, "\n", " | ")))
+	}
 }
 
 func deepProbe(prop string, res *hx.Result) {
